@@ -679,7 +679,11 @@ func poolRandCase(line string, sendDur time.Duration) string {
 		gates[j] = make(chan struct{})
 		isGated[j] = rng.Intn(100) < gated
 	}
-	var epoch atomic.Int64      // incremented by every Run the harness issues
+	reqScoped := make([]bool, total)
+	for j := range reqScoped {
+		reqScoped[j] = rng.Intn(3) == 0
+	}
+	var epoch atomic.Int64           // incremented by every Run the harness issues
 	accEpoch := make([]int64, total) // epoch in which the job was accepted (0 = never)
 	var accMu sync.Mutex
 	jobFn := func(j int) func(ctx context.Context) error {
@@ -733,7 +737,15 @@ func poolRandCase(line string, sendDur time.Duration) string {
 				pc.mu.Unlock()
 				ep := epoch.Load()
 				t0 := time.Now()
-				verifapi.PoolSend(bg, p, "rand", jobFn(j))
+				if reqScoped[j] {
+					// a request-scoped context, cancelled as soon as Send has returned (what a gRPC handler passes):
+					// the job was accepted and must still be executed
+					sctx, cancel := context.WithCancel(bg)
+					verifapi.PoolSend(sctx, p, "rand", jobFn(j))
+					cancel()
+				} else {
+					verifapi.PoolSend(bg, p, "rand", jobFn(j))
+				}
 				d := time.Since(t0)
 				if int64(d) > maxSend.Load() {
 					maxSend.Store(int64(d))
